@@ -199,6 +199,10 @@ func Run(r *core.Run) {
 		p.MultihashAlgorithms = []uint{j.code}
 		if j.sched != nil {
 			p.MultihashAlgorithms = codes
+			if ji%2 == 1 {
+				// the preferred algorithm first: a protocol lists its algorithms in its own order, not in the order of their codes
+				p.MultihashAlgorithms = []uint{codes[1], codes[0]}
+			}
 		}
 		// chains with anchoring windows are read by a parser whose anchor time validator refuses every window (a node reading its
 		// history long after the windows have passed): reveal values and commitments are reported in batch mode, which does not ask it
